@@ -13,6 +13,23 @@ func newG(v *sym.V, cls sym.Class) *gen.G {
 	return &gen.G{V: v, Cls: cls, ClsSafe: cls, ClsUnsafe: cls, Min: 1, Max: v.Param("maxlen", 2), Budget: v.Param("nsym", 2)}
 }
 
+// build draws an error according to the tier parameters:
+//
+//	D     maximal number of layers
+//	reps  1 = leaves and inner wrappers from the representative sets (one kind
+//	      per behaviour class), outermost wrapper from the full set;
+//	      0 = full sets everywhere
+func build(v *sym.V, g *gen.G, name string) *gen.B {
+	d := v.Param("D", 2)
+	if v.Param("reps", 0) == 1 {
+		return g.BuildTiered(name, d, gen.RepLeaves, gen.RepWrappers, gen.AllWrappers)
+	}
+	if v.Param("reps", 0) == 2 {
+		return g.BuildTiered(name, d, gen.RepLeaves, gen.RepWrappers, gen.RepWrappers)
+	}
+	return g.BuildTiered(name, d, gen.AllLeaves, gen.AllWrappers, gen.AllWrappers)
+}
+
 func kindAt(b *gen.B, i int) string {
 	if b != nil && i < len(b.Kinds) {
 		return b.Kinds[i].String()
